@@ -16,6 +16,7 @@ sys.dont_write_bytecode = True
 
 def one(args):
     seeds_dir, sid = args
+    os.environ["RSS_CACHE"] = "/var/tmp/rss_cache_seedtest"
     from rss import engine
     work = "/var/tmp/seedtest/%s" % sid
     shutil.rmtree(work, ignore_errors=True)
@@ -66,6 +67,7 @@ def main():
             summary[sid] = {"detected": bool(hits), "by": sorted({h[0] for h in hits}), "own_property": any(h[0].startswith(own + "/") for h in hits),
                             "details": [list(h) for h in hits][:6]}
     shutil.rmtree("/var/tmp/seedtest", ignore_errors=True)
+    shutil.rmtree("/var/tmp/rss_cache_seedtest", ignore_errors=True)
     out = os.environ.get("SEEDTEST_OUT")
     if out:
         json.dump(summary, open(out, "w"), indent=1)
